@@ -14,6 +14,7 @@ acts: ['exit',k,code] ['sigdie',k,sig] ['unknown',sts] ['signal',s] ['poll']
       ['rpc',req,kind,...]  kind in start(i,wait) stop(i,wait) signal(i,sig,sigok)
       startgroup(g,wait) stopgroup(g,wait) startall(wait) stopall(wait) shutdown restart
 """
+import os
 import sys
 import simkernel
 from simkernel import SimKernel, EndOfScript, RecLogger
@@ -104,15 +105,18 @@ class Driver(object):
         self.options = opts
         self.pcfgs = []
         AR = {0: False, 1: datatypes.RestartWhenExitUnexpected, 2: datatypes.RestartUnconditionally}
+        logdir = self.script.get('logdir')
         for i, c in enumerate(self.script['procs']):
+            cap = c.get('capture', 0)
+            lf = (lambda ch: os.path.join(logdir, 'p%d.%s.log' % (i, ch))) if logdir else (lambda ch: None)
             pc = ProcessConfig(
                 opts, name='p%d' % i, uid=None, command=CMD[c['cmd']], directory=None, umask=None,
                 priority=c['priority'], autostart=bool(c['autostart']), autorestart=AR[c['autorestart']],
                 startsecs=c['startsecs'], startretries=c['startretries'],
-                stdout_logfile=None, stdout_capture_maxbytes=0, stdout_events_enabled=False, stdout_syslog=False,
-                stdout_logfile_backups=0, stdout_logfile_maxbytes=0,
-                stderr_logfile=None, stderr_capture_maxbytes=0, stderr_logfile_backups=0, stderr_logfile_maxbytes=0,
-                stderr_events_enabled=False, stderr_syslog=False,
+                stdout_logfile=lf('out'), stdout_capture_maxbytes=cap, stdout_events_enabled=bool(c.get('events', 0)),
+                stdout_syslog=False, stdout_logfile_backups=c.get('backups', 0), stdout_logfile_maxbytes=c.get('maxbytes', 0),
+                stderr_logfile=lf('err'), stderr_capture_maxbytes=cap, stderr_logfile_backups=0, stderr_logfile_maxbytes=0,
+                stderr_events_enabled=bool(c.get('events', 0)), stderr_syslog=False,
                 stopsignal=c['stopsignal'], stopwaitsecs=c['stopwaitsecs'], stopasgroup=bool(c['stopasgroup']),
                 killasgroup=bool(c['killasgroup']), exitcodes=list(c['exitcodes']), redirect_stderr=False)
             self.pcfgs.append(pc)
@@ -205,6 +209,9 @@ class Driver(object):
         k.trace.append(('pass', self.opi - 1, op['now']))      # harness marker, not an effect
         k.forkq = list(op.get('forkq', []))
         k.killq = list(op.get('killq', []))
+        k.faults = dict((name, list(q)) for name, q in op.get('faults', {}).items())
+        for (ck, chan, data) in op.get('outputs', []):
+            k.child_write(ck, chan, bytes(data))
         for a in op['acts']:
             self.do_act(a)
         for h in self.hooks:
